@@ -702,6 +702,17 @@ func (f *fnCtx) call(c *ast.CallExpr, stmt bool) string {
 	}
 	if sel, ok := c.Fun.(*ast.SelectorExpr); ok {
 		m := sel.Sel.Name
+		// `sdk.AccAddress(obj.Bytes()).String()`: the bech32 text of bytes read from an object — an accessor of that object
+		if m == "String" && len(c.Args) == 0 {
+			if conv, ok := sel.X.(*ast.CallExpr); ok && len(conv.Args) == 1 {
+				if tv, ok := f.info.Types[conv.Fun]; ok && tv.IsType() && f.g.classifySafe(tv.Type).k == kBytes {
+					if ap, aargs, isPath := f.pathOf(conv.Args[0]); isPath && aargs == nil && len(ap.segs) > 0 {
+						ap.segs = append(ap.segs, "as_"+sanitize(exprFull(conv.Fun))+"_String")
+						return f.pathValue(ap, nil, lty{k: kStr, lean: "String"}, c)
+					}
+				}
+			}
+		}
 		// package functions
 		if id, ok := sel.X.(*ast.Ident); ok {
 			if pn, isPkg := f.info.ObjectOf(id).(*types.PkgName); isPkg {
@@ -838,7 +849,7 @@ func (f *fnCtx) call(c *ast.CallExpr, stmt bool) string {
 }
 
 var effectful = map[string]bool{"SendCoinsFromAccountToModule": true, "SendCoinsFromModuleToModule": true, "SendCoinsFromModuleToAccount": true,
-	"BurnCoins": true, "MintCoins": true, "SendCoins": true, "SaveProofExternalOwnedAccount": true, "SetupExecutionContext": true, "EmitEvent": true, "EmitEvents": true, "SubGas": true, "AddGas": true, "AddBalance": true, "SubBalance": true, "SetNonce": true, "SetState": true,
+	"BurnCoins": true, "MintCoins": true, "SendCoins": true, "SaveProofExternalOwnedAccount": true, "SetupExecutionContext": true, "SetSequence": true, "SetAccount": true, "SetFlagSenderNonceIncreasedByAnteHandle": true, "EmitEvent": true, "EmitEvents": true, "SubGas": true, "AddGas": true, "AddBalance": true, "SubBalance": true, "SetNonce": true, "SetState": true,
 	"SetCode": true, "AddLog": true, "Suicide": true, "ConsumeGas": true, "RefundGas": true, "SetParams": true, "SetBaseFee": true}
 
 func (f *fnCtx) nameOfRootGo(o types.Object) string { return o.Name() }
